@@ -15,7 +15,7 @@ import (
 )
 
 func checkC18(c *Check) {
-	c.Explain = "Decides, on the SSA form of main.go and tree.(*Tree).Compile as found in /repo now: (1) every error produced on the path input→parse→compile→output is either returned to the caller or leads, on every path from its non-nil test, to a non-zero process exit (os.Exit(≠0), log.Fatal*, panic) — for main.main this is the must-pass-through condition 'non-nil error ⇒ non-zero exit' for both values of -strict; (2) no such error is dropped outside four listed idioms; (3) a nil error is returned by Compile / the compile callback / parse only on paths dominated by the nil edge of the check of the stage that completes the output (printer Fprint to out ← Compile ← callback); (4) flags named inline/switch/noast/strict flow to the tree.New parameter / Tree field of the matching name, and the destination is opened with O_CREATE|O_TRUNC and a write mode; (5) R-destination: the file opened for writing is named by the -output variable, which is defaulted only to flag.Arg(0)+\".go\"; the file opened for reading is flag.Arg(0); the streams handed on are os.Stdin/os.Stdout or those two files. Not decided: what the operating system does after Fprint returned nil; the text of messages."
+	c.Explain = "Decides, on the SSA form of main.go and tree.(*Tree).Compile as found in /repo now: (1) every error produced on the path input→parse→compile→output is either returned to the caller or leads, on every path from its non-nil test, to a non-zero process exit (os.Exit(≠0), log.Fatal*, panic) — for main.main this is the must-pass-through condition 'non-nil error ⇒ non-zero exit' for both values of -strict; (2) no such error is dropped outside four listed idioms; (3) a nil error is returned by Compile / the compile callback / parse only on paths dominated by the nil edge of the check of the stage that completes the output (printer Fprint to out ← Compile ← callback); (4) flags named inline/switch/noast/strict flow to the tree.New parameter / Tree field of the matching name, and the destination is opened with O_CREATE|O_TRUNC and a write mode; (5) R-destination: the file opened for writing is named by the -output variable, which is defaulted only to flag.Arg(0)+\".go\"; the file opened for reading is flag.Arg(0); the streams handed on are os.Stdin/os.Stdout or those two files; (6) R-cli-semantics: main is evaluated by the interpreter on 14 command lines (default, nested and absolute grammar paths, -output file/=/-, standard input, each option flag and all of them) x {success, syntax error, generation failure, read failure, unopenable grammar, unopenable destination} with flag.*, os.Open/OpenFile/Create, io.ReadAll, the front end's Init/Parse/Execute, tree.New and (*Tree).Compile as natives that record their arguments and fail on demand: exit status 0 exactly when Compile was handed the requested destination and returned nil; the value-shape rules (4)/(5) yield to it when main.go is organised differently (options struct, helper functions). Not decided: what the operating system does after Fprint returned nil; the text of messages."
 	c.Assume = []string{"go/ssa (x/tools v0.50.0) models main.go faithfully", "os.Exit(c≠0), log.Fatal*, panic terminate the process with non-zero status", "writes to a *bytes.Buffer cannot fail"}
 	c.Trusted = []string{"go/packages, go/types, go/ssa of golang.org/x/tools v0.50.0"}
 	r := mustRepo(c)
